@@ -386,59 +386,71 @@ fn find_rare_seeds(p: &'static Params, verif_seed: u64, cap: u64) -> RareSeeds {
     out
 }
 
-/// Model-selected seeds for rare whole-keygen events (full reference KeyGen per counter seed, cached on disk
-/// because the search only involves the reference): t = A s1 + s2 wraps past q, wraps below 0, a t coefficient = 0.
-pub fn rare_keygen_seeds(p: &'static Params, verif_seed: u64, cap: u64) -> Vec<(String, [u8; 32])> {
-    let cache = format!("{}/mc/target/cache/rarekg_{}_{}_{}.json", crate::report::verif_root(), p.id, verif_seed, cap);
-    if let Ok(text) = std::fs::read_to_string(&cache) {
-        if let Ok(v) = serde_json::from_str::<Vec<(String, String)>>(&text) {
-            return v.into_iter().map(|(n, h)| (n, refmodel::unhex(&h).try_into().unwrap())).collect();
-        }
-    }
-    let names = ["t_wraps_past_q", "t_wraps_below_0", "t_coeff=0"];
-    let mut found: Vec<Option<u64>> = vec![None; names.len()];
-    let chunk = 4096u64;
-    let mut base = 0;
-    while base < cap && found[..2].iter().any(|f| f.is_none()) {
-        let hits: Vec<(u64, [bool; 3])> = (base..base + chunk)
-            .into_par_iter()
-            .map(|i| {
-                let kg = refmodel::keygen_internal(p, &alpha::counter32(verif_seed, "rarekg", i));
-                let mut h = [false; 3];
-                for k in 0..p.k {
-                    for n in 0..256 {
-                        let t = i64::from(kg.t[k][n]);
-                        let s2 = i64::from(kg.s2[k][n]);
-                        let as1 = refmodel::mod_q(t - s2);
-                        if as1 + s2 >= refmodel::Q {
-                            h[0] = true;
-                        }
-                        if as1 + s2 < 0 {
-                            h[1] = true;
-                        }
-                        if t == 0 {
-                            h[2] = true;
-                        }
-                    }
-                }
-                (i, h)
-            })
-            .collect();
-        for (i, h) in hits {
-            for e in 0..3 {
-                if h[e] && found[e].is_none() {
-                    found[e] = Some(i);
-                }
+/// Model-selected seeds for rare whole-keygen events (full reference KeyGen per counter seed). The search involves only
+/// the reference model, so its result is independent of /repo and of VERIF_SEED: it is committed under witnesses/ and
+/// re-derived (and extended) whenever the file is missing or a larger cap is requested.
+pub fn rare_keygen_seeds(p: &'static Params, _verif_seed: u64, cap: u64) -> Vec<(String, [u8; 32])> {
+    let path = format!("{}/witnesses/rarekg_mldsa{}.json", crate::report::verif_root(), p.id);
+    let names = ["t_wraps_past_q", "t_wraps_below_0", "t_wraps_past_q_in_last_row", "t_wraps_below_0_in_last_row", "t_coeff=0", "t_coeff=q-1", "t_coeff=0_without_wrap", "t_coeff=q-1_without_wrap"];
+    let mut known: Vec<(String, String)> = Vec::new();
+    let mut searched: u64 = 0;
+    if let Ok(text) = std::fs::read_to_string(&path) {
+        if let Ok(v) = serde_json::from_str::<serde_json::Value>(&text) {
+            searched = v["searched"].as_u64().unwrap_or(0);
+            for e in v["seeds"].as_array().cloned().unwrap_or_default() {
+                known.push((e[0].as_str().unwrap().to_string(), e[1].as_str().unwrap().to_string()));
             }
         }
-        base += chunk;
     }
-    let out: Vec<(String, [u8; 32])> = names.iter().zip(found.iter()).filter_map(|(n, f)| f.map(|i| (n.to_string(), alpha::counter32(verif_seed, "rarekg", i)))).collect();
-    let _ = std::fs::create_dir_all(format!("{}/mc/target/cache", crate::report::verif_root()));
-    let _ = std::fs::write(&cache, serde_json::to_string(&out.iter().map(|(n, s)| (n.clone(), hex(s))).collect::<Vec<_>>()).unwrap());
-    out
+    let complete = names.iter().all(|n| known.iter().any(|(k, _)| k == n));
+    if !complete && searched < cap {
+        let mut found: Vec<Option<u64>> = names.iter().map(|_| None).collect();
+        let chunk = 4096u64;
+        let mut base = 0;
+        while base < cap && found.iter().any(|f| f.is_none()) {
+            let hits: Vec<(u64, [bool; 8])> = (base..base + chunk)
+                .into_par_iter()
+                .map(|i| {
+                    let kg = refmodel::keygen_internal(p, &alpha::counter32(0, "rarekg", i));
+                    let mut h = [false; 8];
+                    for k in 0..p.k {
+                        for n in 0..256 {
+                            let t = i64::from(kg.t[k][n]);
+                            let s2 = i64::from(kg.s2[k][n]);
+                            let as1 = refmodel::mod_q(t - s2);
+                            if as1 + s2 >= refmodel::Q {
+                                h[0] = true;
+                                h[2] |= k == p.k - 1;
+                            }
+                            if as1 + s2 < 0 {
+                                h[1] = true;
+                                h[3] |= k == p.k - 1;
+                            }
+                            h[4] |= t == 0;
+                            h[5] |= t == refmodel::Q - 1;
+                            let nowrap = as1 + s2 >= 0 && as1 + s2 < refmodel::Q;
+                            h[6] |= t == 0 && nowrap;
+                            h[7] |= t == refmodel::Q - 1 && nowrap;
+                        }
+                    }
+                    (i, h)
+                })
+                .collect();
+            for (i, h) in hits {
+                for e in 0..8 {
+                    if h[e] && found[e].is_none() {
+                        found[e] = Some(i);
+                    }
+                }
+            }
+            base += chunk;
+        }
+        known = names.iter().zip(found.iter()).filter_map(|(n, f)| f.map(|i| (n.to_string(), hex(&alpha::counter32(0, "rarekg", i))))).collect();
+        let _ = std::fs::write(&path, serde_json::to_string_pretty(&json!({"set": p.id, "searched": base, "how": "first counter seed (tag rarekg) whose reference KeyGen_internal shows the event", "seeds": known})).unwrap());
+    }
+    known.into_iter().map(|(n, h)| (n, refmodel::unhex(&h).try_into().unwrap())).collect()
 }
-pub fn rare_cap(tier: Tier) -> u64 { tier.pick(81_920, 409_600) }
+pub fn rare_cap(tier: Tier) -> u64 { tier.pick(262_144, 1_048_576) }
 
 fn keygen_case(api: &'static SetApi, xi: &[u8; 32], class: &str) -> (Option<Violation>, Vec<String>) {
     let p = api.p;
@@ -523,7 +535,7 @@ pub fn c04(cx: &Ctx, rep: &mut Report) {
             }
         }
         let rk = rare_keygen_seeds(p, cx.seed, rare_cap(cx.tier));
-        for need in ["t_wraps_past_q", "t_wraps_below_0"] {
+        for need in ["t_wraps_past_q", "t_wraps_below_0", "t_wraps_past_q_in_last_row", "t_wraps_below_0_in_last_row", "t_coeff=q-1_without_wrap"] {
             if !rk.iter().any(|(n, _)| n == need) {
                 rep.caps_hit.push(format!("ML-DSA-{}: no seed with {need} within {} reference key generations", p.id, rare_cap(cx.tier)));
             }
